@@ -113,8 +113,41 @@ def _merge_exp(m):
     return rest, e
 
 
+def _reduce_powers(r):
+    """sqrt(q)^2 -> q   and   sin(t)^2 -> 1 - cos(t)^2  (canonical forms)."""
+    c = _ctx._CUR[0]
+    if c is None or not c.reduce_powers or not (c.fun_atoms.get('sqrt') or c.trig_atoms):
+        return r
+    for _ in range(8):
+        hit = None
+        for m in r:
+            for (a, k) in m:
+                if k >= 2 and c.atom_keys[a][0] in ('sqrt', 'sin'):
+                    hit = (m, a, k)
+                    break
+            if hit:
+                break
+        if hit is None:
+            return r
+        m, a, k = hit
+        co = r[m]
+        rest = tuple((x, y) for x, y in m if x != a)
+        if k - 2 > 0:
+            rest = tuple(sorted(rest + ((a, k - 2),)))
+        key = c.atom_keys[a]
+        if key[0] == 'sqrt':
+            sub = dict(key[1])
+        else:
+            ci = c.atom_by_key[('cos', key[1])]
+            sub = {ONE: Fr(1), ((ci, 2),): Fr(-1)}
+        r = dict(r)
+        del r[m]
+        r = _padd(r, _pmul_raw({rest: co}, sub))
+    return r
+
+
 def _pmul(p, q):
-    r = _pmul_raw(p, q)
+    r = _reduce_powers(_pmul_raw(p, q))
     c = _ctx._CUR[0]
     if c is None or not c.fun_atoms.get('exp'):
         return r
@@ -857,6 +890,41 @@ def sqrt(a):
         return np.sqrt(a)
     c = _ctx.cur()
     a0 = SymReal(a.p)
+    # canonical radicand: pull out the common monomial factor with even powers and the
+    # magnitude of the leading coefficient:  sqrt(k m^2 q) = sqrt(k) |m| sqrt(q)
+    if len(a0.p) >= 2:
+        common = None
+        for m in a0.p:
+            d = dict(m)
+            common = d if common is None else {x: min(k, d.get(x, 0)) for x, k in common.items()
+                                               if d.get(x, 0) > 0}
+            if not common:
+                break
+        even = {x: (k // 2) * 2 for x, k in (common or {}).items() if k >= 2}
+        lead = abs(a0.p[min(a0.p)])
+        if _frsqrt(lead) is None:
+            lead = Fr(1)          # only an exact rational square is pulled out
+        if even or lead != 1:
+            q = {}
+            for m, co in a0.p.items():
+                d = dict(m)
+                for x, k in even.items():
+                    d[x] -= k
+                    if d[x] == 0:
+                        del d[x]
+                q[tuple(sorted(d.items()))] = co / lead
+            root = sqrt(SymReal(q)) if not (len(q) == 1 and ONE in q) else math.sqrt(q[ONE])
+            fac = math.sqrt(lead) if _frsqrt(lead) is None else float(_frsqrt(lead))
+            out = mul(root, fac)
+            for x, k in even.items():
+                base = SymReal({((x, 1),): Fr(1)})
+                ab = sabs(base)
+                for _ in range(k // 2):
+                    out = mul(out, ab)
+            if a.d is not None:
+                out = lift(out)
+                return _mk(out.p, div(a.d, mul(2.0, SymReal(out.p))))
+            return out
     # sqrt(k^2 * q) = k sqrt(q): pull a rational square content out when trivial
     # perfect square of a single atom?  sqrt(x^2) = |x|
     if len(a0.p) == 1:
